@@ -26,7 +26,7 @@ func init() {
 		ID:       "C01",
 		Title:    "SyncRing is a linearizable bounded MPMC FIFO queue",
 		Quick:    3000,
-		Thorough: 200000,
+		Thorough: 50000,
 		Gen:      gen,
 		Corpus:   corpus,
 		Impl:     impl,
